@@ -23,7 +23,7 @@ def gen_cases(rng, tier):
             c["months"] = 12
         cs.append(c)
     # hourly runs longer than the year of loads supplied: the sequence is the year repeated end to end (steps around each year boundary)
-    for months in ([24] if tier == "quick" else [24, 36, 18]):
+    for months in ([24, 18] if tier == "quick" else [24, 36, 18, 30]):
         cs.append({"nx": 1, "ny": 2, "months": months, "H": 100.0, "loads": {"kind": rng.choice(kinds), "scale": 12000.0, "seed": rng.randrange(1, 10 ** 6)},
                    "pipe": "SINGLEUTUBE", "flow": ["BOREHOLE", 0.4], "method": "HOURLY", "ugt": 15.0, "k": 2.2, "steps": 20,
                    "late_steps": [8759, 8760, 8761, 8762, 8784, int(months / 12.0 * 8760.0)]})
